@@ -145,6 +145,27 @@ TECH['C14'] = TECH['C14'] + ', and of command_subst::subshell_body / expand_comm
 LEVEL_TEXT['C16'] = LEVEL_TEXT['C16'] + ' Added (unit unsetbi): the unset built-in asks the store to unset every operand once, in order, in the global scope.'
 TECH['C16'] = TECH['C16'] + ', and of unset_variables / unset_functions of the unset built-in against a log of the store requests'
 
+# --- later units of the same session (dotscript, execglue, execbi, waitcore, runtrap, paramexp, textunit, typesetvars, exportbi, jobstatus, fundef, exitbi, pipelineparse, getoptsk, typesetk) ---
+LEVEL_TEXT['C01'] = LEVEL_TEXT['C01'].replace('The statement as a whole', 'Added: how one parameter expansion is put together (ParamRef::expand: an unset parameter under nounset is an error exactly without a switch modifier; switch / trim / length applied once; `$*` joined in a non-splitting context) and what literal / backslashed text units expand to. The statement as a whole')
+TECH['C01'] = TECH.get('C01', 'contract-based deductive verification (Verus, Z3) of Ranges::next, Ifs::classify(_attr), Phrase operations, the switch table, double_quote / WordUnit::expand + bounded Kani enumeration of the real splitter') + ', and of ParamRef::expand and TextUnit::expand (opaque callees observed by ghost logs)'
+TECH['C02'] = TECH['C02'].replace('return::main,', 'return::main, exit::main, the . built-in, FunctionDefinition::execute, Parser::pipeline,')
+LEVEL_TEXT['C09'] = LEVEL_TEXT['C09'].replace('Three callers of the guard (execute_function, execute_external_utility, FullCompoundCommand::execute)', 'Five callers of the guard (execute_function, execute_external_utility, execute_builtin, the child of execute_absent_target, FullCompoundCommand::execute)') + ' Added: the exec built-in always asks to retain its redirections; a command without a name performs its redirections only in a child; the . built-in closes the descriptor it opened for the script.'
+TECH['C09'] = TECH['C09'].replace('and of three callers of the guard (execute_function, execute_external_utility, FullCompoundCommand::execute)', 'and of the callers of the guard (execute_function, execute_external_utility, execute_builtin, execute_absent_target, FullCompoundCommand::execute), exec::main and the . built-in')
+LEVEL_TEXT['C11'] = LEVEL_TEXT['C11'] + ' Added, against ghost logs of opaque callees: one trap round after every command (Command::execute), each caught signal handed out has its action run exactly once (run_traps_for_caught_signals, run_trap_if_caught), the signals that interrupt `wait` are offered to the trap runner once each in order (wait_for_any_job_or_trap), `$?` is preserved around a trap action (run_trap), the internal dispositions are disabled before an external utility is executed (replace_current_process).'
+TECH['C11'] = TECH.get('C11', 'contract-based deductive verification (Verus, Z3) of GrandState / TrapSet operations') + ', and of run_traps_for_caught_signals, run_trap_if_caught, run_trap, run_exit_trap, Command::execute, wait_for_any_job_or_trap, replace_current_process (opaque callees observed by ghost monitors)'
+LEVEL_TEXT['C12'] = LEVEL_TEXT['C12'] + ' Added: which jobs enter the table from the interpreter: one job with the child\'s process ID for `cmd &` (with `$!`), and a synchronously awaited child only when it was stopped (handle_job_status).'
+TECH['C12'] = TECH.get('C12', 'contract-based deductive verification (Verus, Z3) of the JobList mutators + Kani harness-encoded contracts of the selectors and job-id resolution (bounded shapes)') + ', and of execute_async and handle_job_status (Verus, ghost logs)'
+TECH['C13'] = TECH['C13'].replace('command_subst::expand_common against ghost call monitors', 'command_subst::expand_common, handle_job_status, wait_for_any_job_or_trap / Command::await_jobs, execute_async, run_external_utility_in_subshell against ghost call monitors')
+LEVEL_TEXT['C16'] = LEVEL_TEXT['C16'] + ' Added: where each kind of command makes its prefixed assignments (special built-in / no command name: the caller\'s contexts, not exported; function, other built-in, external: a volatile exported context that goes away), typeset / local ask for each operand once in the scope of the invocation, export / readonly always in the global scope, execve is given exactly env_c_strings(), and the context guard\'s constructor / destructor bodies.'
+TECH['C16'] = TECH['C16'] + ', SetVariables::execute, export::main / readonly::main, execute_builtin / execute_absent_target / execute_function (assignment scope), replace_current_process, ContextGuard (opaque callees observed by ghost logs)'
+LEVEL_TEXT['C17'] = LEVEL_TEXT['C17'].replace('Termination and the resulting token sequence', 'Parser::pipeline is proved to consume nothing before it gives up on an alias substitution in first position and to remember a `!` or `|` it consumed when the command after it is re-parsed. Termination and the resulting token sequence')
+TECH['C17'] = TECH['C17'] + ', and Parser::pipeline against a monitor of consumed tokens'
+LEVEL_TEXT['C20'] = LEVEL_TEXT['C20'] + ' The getopts scanner (getopts::model::next) is checked the same way on 16 concrete argument vectors.'
+TECH['C20'] = TECH.get('C20', 'bounded Kani harness-encoded contract of parse_arguments on concrete argument vectors (literal expectations from a reference parser)') + ' + the same for the getopts scanner'
+LEVEL_TEXT['C07'] = LEVEL_TEXT['C07'].replace('the printers of state listings', 'four concrete scalar / valueless variables through print_one of typeset -p / export -p (the array form exceeded the budget and is not checked); the other printers of state listings')
+TECH['C07'] = TECH.get('C07', 'Kani: complete per-character harnesses of the quoting / lexer classification, bounded harness-encoded contracts of quoted() / Display for Quoted and of the value printer') + ', and of print_one on concrete variables'
+LEVEL_TEXT['C18'] = LEVEL_TEXT['C18'].replace('bounded Kani check that read_char of the read built-in decodes and consumes exactly one character under every chunking of the reads.', 'bounded Kani check that read_char of the read built-in decodes and consumes exactly one character under every chunking of the reads, and nothing beyond the first offending byte of an invalid sequence.')
+
 def main():
     checks = []
     for pid in ALL:
